@@ -368,8 +368,40 @@ func (h *hist) ra() {
 
 var dnsNames = [][]string{{"www", "example", "com"}, {"example", "com"}, {"cdn", "example", "net"}, {"a", "b", "example", "com"}, {"printer", "lan"}}
 
+// dnsPTR: a reverse lookup answered with PTR records (owner x.x.x.x.in-addr.arpa spells the address)
+func (h *hist) dnsPTR() {
+	g := h.g
+	ip := ip4s[g.rng.Intn(len(ip4s))].As4()
+	q := []string{fmt.Sprint(ip[3]), fmt.Sprint(ip[2]), fmt.Sprint(ip[1]), fmt.Sprint(ip[0]), "in-addr", "arpa"}
+	n := 1 + g.rng.Intn(2)
+	w := newDNSW(udp4Off, uint16(g.rng.Intn(65536)), 0x8180, 1, n, 0, 0)
+	compress := g.rng.Chance(70)
+	qn := w.name(q, false)
+	w.u16(12)
+	w.u16(1)
+	var rrs []string
+	for i := 0; i < n; i++ {
+		owner, iphex := q, lib.Hex(ip[:])
+		if g.rng.Chance(15) {
+			owner, iphex = []string{"b", "_dns-sd", "_udp", "lan"}, "-" // not a reverse name: the record is ignored
+		}
+		_, lo := w.rrHead(owner, 12, 1, compress)
+		target := [][]string{{"alpha", "lan"}, {"beta-pc", "lan"}, {"printer", "lan"}}[g.rng.Intn(3)]
+		pl := w.name(target, compress)
+		w.rrEnd(lo)
+		rrs = append(rrs, fmt.Sprintf("p,%s,%s", pl, iphex))
+	}
+	dst := ip4s[g.rng.Intn(len(ip4s))]
+	frame := udp4Frame(g.umac(), lib.RouterMAC, netip.MustParseAddr("8.8.8.8"), dst, 53, uint16(30000+g.rng.Intn(100)), w.b)
+	h.add("n:" + lib.Hex(frame) + ":" + qn + ":" + strings.Join(rrs, ";"))
+}
+
 func (h *hist) dns() {
 	g := h.g
+	if g.rng.Chance(20) {
+		h.dnsPTR()
+		return
+	}
 	q := dnsNames[g.rng.Intn(len(dnsNames))]
 	n := g.rng.Intn(4)
 	w := newDNSW(udp4Off, uint16(g.rng.Intn(65536)), 0x8180, 1, n, 0, 0)
